@@ -316,6 +316,19 @@ type built struct {
 }
 
 func construct(k string, plat *PlatDef, opts []util.Option) (b built) {
+	var y []byte
+	if isPlatformK(k) {
+		if plat == nil {
+			plat = &PlatDef{DDP: "exec"}
+		}
+		y = platYAML(k, plat)
+	}
+	return constructY(k, y, opts)
+}
+
+// constructY: as construct, the platform definition given as YAML bytes (the very slice is handed
+// to platform.NewPlatform).
+func constructY(k string, y []byte, opts []util.Option) (b built) {
 	defer func() {
 		if x := recover(); x != nil {
 			b = built{panicked: x}
@@ -341,10 +354,7 @@ func construct(k string, plat *PlatDef, opts []util.Option) (b built) {
 		}
 		return built{drv: d}
 	case kPlatGen, kPlatNet:
-		if plat == nil {
-			plat = &PlatDef{DDP: "exec"}
-		}
-		p, err := platform.NewPlatform(platYAML(k, plat), hostName, opts...)
+		p, err := platform.NewPlatform(y, hostName, opts...)
 		if err != nil {
 			return built{err: err}
 		}
@@ -717,6 +727,8 @@ func expect(l List, p *pools) (*expectation, error) {
 // ---------------------------------------------------------------------------------------------
 // running one list
 
+func setHome(h string) { os.Setenv("HOME", h) }
+
 type listResult struct {
 	key, detail string
 	nontrivial  bool
@@ -739,7 +751,7 @@ func errClassOf(err error) string {
 func runList(l List) listResult {
 	res := listResult{obs: map[string]int64{"lists": 1, "options_given": int64(len(l.Opts))}}
 	home := filepath.Join(homeRoot, l.Home)
-	os.Setenv("HOME", home)
+	setHome(home)
 	p := newPools(home)
 	ex, err := expect(l, p)
 	if err != nil {
